@@ -180,6 +180,8 @@ structure StreamSt where
   /-- DATA payloads received so far, newest first. -/
   chunksRev : List Bytes := []
   trailers : List Field := []
+  /-- the first HEADERS frame carried END_STREAM (the receiver learns "no body" from it). -/
+  hdrEnd : Bool := false
 deriving Repr, Inhabited
 
 def StreamSt.body (st : StreamSt) : Bytes := st.chunksRev.reverse.flatten
@@ -191,7 +193,7 @@ def StreamSt.msg (st : StreamSt) : Msg :=
 def finishHdr {D : Type} (dec : D → Bytes → Option (List Field × D)) (d : D) (st : StreamSt)
     (es : Bool) (blk : Bytes) : Option (D × StreamSt) :=
   match dec d blk with
-  | some (fs, d') => some (d', { st with headers := fs, phase := if es then .done else .body })
+  | some (fs, d') => some (d', { st with headers := fs, hdrEnd := es, phase := if es then .done else .body })
   | none => none
 
 /-- complete trailer block. -/
